@@ -14,6 +14,8 @@
 (*   Export{c, items, val}  the exporter of c was handed items                 *)
 (*   CompShutdown{c}  ExpShutdown{c}   Shutdown seen by the component / exporter*)
 (*   Panic{k, op}  Hung{k, op, where}  Crash{}   EndScenario{quiescent}        *)
+(*   InvalidExport{c, n}  the exporter of c was handed n entries that are not   *)
+(*     ended spans (nil, or a value that is not a span at all)                  *)
 (*   Fault{f}  the environment switches to fault mode f (logged before it takes *)
 (*     effect): user-supplied components fail from now on -- processors' and    *)
 (*     exporters' Shutdown / ForceFlush, observable callbacks, external         *)
@@ -73,7 +75,7 @@ ErrViol(m, e, call) ==
   \* Shutdown had returned): the periodic reader serves ForceFlush on its run loop, whose context Shutdown cancels;
   \* the statement only speaks about calls made after Shutdown has returned
   ELSE IF e.errc = "ctx"
-    THEN (IF call.ctx = "cancelled" \/ (m.cfg.prov = "metric" /\ m.sdBegun /\ call.pre) THEN {}
+    THEN (IF call.ctx \in {"cancelled", "expiring"} \/ (m.cfg.prov = "metric" /\ m.sdBegun /\ call.pre) THEN {}
           ELSE {V("undocumented-error", e, "ctx")})
   ELSE IF e.errc = "reader-shutdown"
     THEN (IF m.cfg.prov = "metric" /\ m.sdBegun THEN {} ELSE {V("undocumented-error", e, "reader-shutdown")})
@@ -100,7 +102,7 @@ OnCall(m, e) ==
          <<[m1 EXCEPT !.unregOpen[e.c] = @ + 1, !.loose[e.c] = (@ \/ m.rc[e.c]),
                       !.unk = (@ \/ ~(m.rr[e.c] /\ m.regOK[e.c] /\ ~m.loose[e.c]))], {}>>
     [] e.op = "Shutdown" ->
-         <<[m1 EXCEPT !.sdBegun = TRUE, !.sdOpen = @ + 1, !.canc = (@ \/ e.ctx = "cancelled")], {}>>
+         <<[m1 EXCEPT !.sdBegun = TRUE, !.sdOpen = @ + 1, !.canc = (@ \/ e.ctx \in {"cancelled", "expiring"})], {}>>
     [] e.op \in ItemOps -> <<[m1 EXCEPT !.open = Put(@, e.item, e.k)], {}>>
     [] e.op = "Add" -> <<[m1 EXCEPT !.addHi = IF e.counted THEN @ + 1 ELSE @], {}>>
     [] OTHER -> <<m1, {}>>
@@ -115,7 +117,7 @@ OnRet(m, e) ==
            \cup (IF call.sole /\ HasExporter(m.cfg.kinds[e.c]) /\ m.xshut[e.c] # 1
                    THEN {V("exporter-shutdown-missing", e, m.cfg.kinds[e.c])} ELSE {})>>
     [] e.op = "Shutdown" ->
-         LET liveRet == m.sdLiveRet \/ call.ctx # "cancelled"
+         LET liveRet == m.sdLiveRet \/ call.ctx \notin {"cancelled", "expiring"}
              done == liveRet /\ m.sdOpen = 1
              m2 == [m1 EXCEPT !.sdOpen = @ - 1, !.sdLiveRet = liveRet, !.sdDone = (@ \/ done)] IN
          <<m2, ErrViol(m, e, call) \cup (IF done /\ ~m.sdDone THEN ShutdownOwed(m) ELSE {})>>
@@ -174,6 +176,7 @@ Step(m, e) ==
     [] e.ev = "ExpShutdown" ->
          <<[m EXCEPT !.xshut[e.c] = @ + 1],
            IF m.xshut[e.c] >= 1 THEN {V("exporter-shutdown-twice", e, m.cfg.kinds[e.c])} ELSE {}>>
+    [] e.ev = "InvalidExport" -> <<m, {V("exported-invalid-span", e, m.cfg.kinds[e.c])}>>
     [] e.ev = "Fault" -> <<[m EXCEPT !.faulted = (@ \/ e.f # "none")], {}>>
     [] e.ev = "Panic" -> <<m, {V("panic", e, e.where)}>>
     [] e.ev = "Hung" -> <<m, {V("hung", e, e.where)}>>
@@ -182,6 +185,13 @@ Step(m, e) ==
          <<m, IF e.quiescent
               THEN {V("unregister-without-shutdown", [op |-> "Unregister", c |-> c], m.cfg.kinds[c]) :
                        c \in {c \in Comps(m) : m.gone[c] /\ m.shut[c] = 0}}
+                   \* "each ... exporter is shut down exactly once however often Shutdown is called": a stock component
+                   \* that was shut down -- with whatever context and error -- has had its exporter shut down by the time
+                   \* everything has returned, a settle window has passed and a last Shutdown(live) was made (the harness
+                   \* ends every scenario that way). Asynchronous completion is fine; never happening is not. (Twice is
+                   \* exporter-shutdown-twice.)
+                   \cup {V("exporter-shutdown-never", [op |-> "Shutdown", c |-> c], m.cfg.kinds[c]) :
+                           c \in {c \in Comps(m) : m.sdDone /\ HasExporter(m.cfg.kinds[c]) /\ m.shut[c] >= 1 /\ m.xshut[c] = 0}}
               ELSE {}>>
     [] OTHER -> <<m, {}>>
 =============================================================================
